@@ -1,0 +1,12 @@
+//go:build verif
+
+package generator
+
+// VerifHook, when set, receives verification events (build tag `verif` only).
+var VerifHook func(ev string, data any)
+
+func verifEmit(ev string, data any) {
+	if VerifHook != nil {
+		VerifHook(ev, data)
+	}
+}
